@@ -221,3 +221,40 @@ func MustPassBefore(to ssa.Instruction, via func(in ssa.Instruction) bool) []*ss
 		NoEnter: func(b *ssa.BasicBlock) bool { return viaBlocks[b] },
 	})
 }
+
+// MayFollow reports whether instruction b can execute after instruction a on some path of
+// their function (same block: a is earlier, or the block lies on a cycle).
+func MayFollow(a, b ssa.Instruction) bool {
+	if a.Parent() != b.Parent() {
+		return false
+	}
+	ab, bb := a.Block(), b.Block()
+	if ab == bb {
+		for _, in := range ab.Instrs {
+			if in == a {
+				if a != b {
+					return true
+				}
+				break
+			}
+			if in == b {
+				break
+			}
+		}
+	}
+	seen := map[*ssa.BasicBlock]bool{}
+	work := append([]*ssa.BasicBlock{}, ab.Succs...)
+	for len(work) > 0 {
+		x := work[len(work)-1]
+		work = work[:len(work)-1]
+		if seen[x] {
+			continue
+		}
+		seen[x] = true
+		if x == bb {
+			return true
+		}
+		work = append(work, x.Succs...)
+	}
+	return false
+}
